@@ -83,6 +83,21 @@ ProcK(p, m, O, k) == ProcD(p, m, O, DecK(p, O, k))
 
 Proc(p, m, O) == ProcK(p, m, O, PecGood(p))
 
+(* ---- the DSP0236-conformant refinement for requests the endpoint cannot carry out ---- *)
+(* The listed properties leave the treatment of such a request open (ignored, or answered  *)
+(* with an error code: X01 in Trace.tla accepts both); DSP0236 asks for an error response, *)
+(* and that is what a bus owner's bring-up relies on to move past a command the endpoint   *)
+(* does not implement (Link.tla, script step "unsupp").                                    *)
+ErrBody(p, m) ==
+    IF Cmd(p) = 0 \/ Cmd(p) > 6 THEN << CC_UNSUPPORTED >>
+    ELSE IF Cmd(p) = 1 THEN << CC_INVALID_DATA, 0, m.eidResp, 0 >>
+    ELSE << CC_INVALID_DATA, 255 >>
+ProcEX(p, m, x) ==
+    IF x.kind = "ok" /\ x.type = MT_CONTROL /\ Rq(p) = 1 /\ ~x.has /\ ~Answered(p, m)
+    THEN [x EXCEPT !.has = TRUE, !.resp = RespPkt(p, m, Iid(p), ErrBody(p, m))]
+    ELSE x
+ProcE(p, m, O) == ProcEX(p, m, Proc(p, m, O))
+
 (* --------------------------- encoders, as-is --------------------------- *)
 (* what the shared packet writer does with a message that does not fit the  *)
 (* one-byte count: r = [kind, count]                                        *)
